@@ -19,7 +19,7 @@ const MV: [(&str, Ver); 8] = [
 ];
 const REQ_CONN: [&[&[u8]]; 4] = [&[], &[b"close"], &[b"keep-alive"], &[b"keep-alive", b"close"]];
 const HS: [&str; 5] = ["none", "got-100", "gave-up", "refused-bare", "refused-with-fields"];
-const STATUS: [u16; 4] = [200, 302, 404, 307];
+const STATUS: [u16; 5] = [200, 302, 404, 307, 102];
 const FRAMING: [&str; 4] = ["length-3", "chunked", "bare", "length-0"];
 const RESP_CONN: [&[&[u8]]; 5] = [&[], &[b"close"], &[b"keep-alive"], &[b"keep-alive", b"close"], &[b"close", b"keep-alive"]];
 
@@ -70,7 +70,7 @@ fn cell(idx: u64, seed: u64, variant: u64, rec: &mut Rec) {
     let req_conn = REQ_CONN[take(4)];
     let hs = HS[take(5)];
     let http10_resp = take(2) == 1;
-    let status = STATUS[take(4)];
+    let status = STATUS[take(5)];
     let framing = FRAMING[take(4)];
     let resp_conn = RESP_CONN[take(5)];
     let body_method = needs_body(method);
@@ -257,14 +257,14 @@ fn partial_redirect_cell(idx: u64, rec: &mut Rec) {
     }
 }
 
-const CELLS: u64 = 8 * 4 * 5 * 2 * 4 * 4 * 5;
+const CELLS: u64 = 8 * 4 * 5 * 2 * 5 * 4 * 5;
 
 impl Property for P {
     fn id(&self) -> &'static str {
         "C10"
     }
     fn rule(&self) -> String {
-        "exhaustive product realising the five close conditions: (method, request version) x request Connection {absent, close, keep-alive, two fields} x Expect handshake {none, 100 received, gave up, refused bare, refused with fields} x response version x status {200, 302, 404, 307} x framing {length, chunked, bare, zero length} x response Connection {absent, close, keep-alive, two fields either order}; every cell is a full exchange driven to Cleanup (through Redirect for 3xx), once with one-shot I/O and again under random segmentation schedules; must_close_connection()/close_reason() at Redirect and Cleanup are compared with the disjunction computed from the description. class = condition bit-vector x exit path.".into()
+        "exhaustive product realising the five close conditions: (method, request version) x request Connection {absent, close, keep-alive, two fields} x Expect handshake {none, 100 received, gave up, refused bare, refused with fields} x response version x status {200, 302, 404, 307, 102} x framing {length, chunked, bare, zero length} x response Connection {absent, close, keep-alive, two fields either order}; every cell is a full exchange driven to Cleanup (through Redirect for 3xx), once with one-shot I/O and again under random segmentation schedules; must_close_connection()/close_reason() at Redirect and Cleanup are compared with the disjunction computed from the description. class = condition bit-vector x exit path.".into()
     }
     fn assumptions(&self) -> Vec<String> {
         vec![
